@@ -66,6 +66,30 @@ impl Op {
         }
         None
     }
+    /// inverse of `short` for the output operations
+    pub fn from_short(t: &str) -> Option<Op> {
+        match t {
+            "u32" => return Some(Op::U32),
+            "u64" => return Some(Op::U64),
+            "jump" => return Some(Op::Jump),
+            "ljump" => return Some(Op::LongJump),
+            "test_timer" => return Some(Op::TestTimer),
+            _ => {}
+        }
+        if let Some(rest) = t.strip_prefix("fill") {
+            if let Some((n, off)) = rest.split_once('@') {
+                return Some(Op::FillAt(n.parse().ok()?, off.parse().ok()?));
+            }
+            return Some(Op::Fill(rest.parse().ok()?));
+        }
+        if let Some(r) = t.strip_prefix("rounds") {
+            return Some(Op::SetRounds(r.parse().ok()?));
+        }
+        if let Some(r) = t.strip_prefix("stats") {
+            return Some(Op::TimerStats(r == "1"));
+        }
+        None
+    }
     pub fn short(&self) -> String {
         match self {
             Op::U32 => "u32".into(),
